@@ -18,7 +18,7 @@ def run_pipeline(ctx, cases, chunk=60):
             d = {"Text": c["Text"], "Weight": bool(c.get("Weight")), "Repeat": int(c.get("Repeat", 1)),
                  "Solve": bool(c.get("Solve")), "Assemble": bool(c.get("Assemble")),
                  "Error": c.get("Error", ""), "Order": c.get("Order", ""), "ScratchDir": ctx.work,
-                 "ViaPre": bool(c.get("ViaPre"))}
+                 "ViaPre": bool(c.get("ViaPre")), "WriteBack": bool(c.get("WriteBack")), "ParseOnly": bool(c.get("ParseOnly"))}
             part.append(d)
         outs += C.dump("pipeline", part, timeout=1800)
     return outs
